@@ -5,7 +5,7 @@ TIER=${1:-quick}
 cd /verif
 ls seeded | grep -v -e README -e LAST_REGRESSION | while read id; do
   P=${id:0:3}
-  case "$id" in C07r2-B) P="C07 C05";; C06r3-B) P="C06 C05";; C03r4-A) P="C03 C12";; C05r4-B) P="C05 C13";; C06r4-A) P="C06 C12";; C05r5-B) P="C05 C06";; C05r4-A) P="C05 C07";; C08r5-B) P="C08 C16";; C03r6-B) P="C03 C12";; C05r6-A) P="C05 C14";; C05r6-B) P="C05 C08";; C06r6-B) P="C06 C19";; C12r6-B) P="C12 C01";; C16r6-B) P="C16 C08";; C03r7-A) P="C03 C09";; C06r7-A) P="C06 C05";; C07r7-B) P="C07 C05";; C08r7-A) P="C08 C16";; C09r7-A) P="C09 C01";; C12r7-A) P="C12 C05";; C12r7-B) P="C12 C10";; C18r7-B) P="C18 C14";; C07r8-B) P="C07 C02";; C12r8-B) P="C12 C03";; esac
+  case "$id" in C07r2-B) P="C07 C05";; C06r3-B) P="C06 C05";; C03r4-A) P="C03 C12";; C05r4-B) P="C05 C13";; C06r4-A) P="C06 C12";; C05r5-B) P="C05 C06";; C05r4-A) P="C05 C07";; C08r5-B) P="C08 C16";; C03r6-B) P="C03 C12";; C05r6-A) P="C05 C14";; C05r6-B) P="C05 C08";; C06r6-B) P="C06 C19";; C12r6-B) P="C12 C01";; C16r6-B) P="C16 C08";; C03r7-A) P="C03 C09";; C06r7-A) P="C06 C05";; C07r7-B) P="C07 C05";; C08r7-A) P="C08 C16";; C09r7-A) P="C09 C01";; C12r7-A) P="C12 C05";; C12r7-B) P="C12 C10";; C18r7-B) P="C18 C14";; C07r8-B) P="C07 C02";; C12r8-B) P="C12 C03";; C03r9-A) P="C03 C02";; C05r9-A) P="C05 C06";; C05r9-B) P="C05 C18";; C07r9-A) P="C07 C02";; C12r9-A) P="C12 C03";; C14r9-B) P="C14 C02";; esac
   echo "$id $P"
 done > /tmp/mv/all.list
 # ONLY="C05|C06": restrict the run to changes one of whose checks matches (the
